@@ -134,12 +134,22 @@ def gen(rng, n):
         cmds = []
         for i, (r, segs) in enumerate(order):
             ms = rng.choice([['GET'], ['GET'], ['GET', 'POST'], ['ANY'], ['post'], ['PUT']])
-            cmds.append(dict(op='add', rule=r, methods=ms, h=i, overwrite=rng.random() < 0.2))
+            cmds.append(L.vary_add(rng, dict(op='add', rule=r, methods=ms, h=i, overwrite=rng.random() < 0.2)))
         for _k in range(rng.randrange(4, 10)):
             r, segs = rng.choice(base)
             p = L.mutate_path(rng, L.instantiate(rng, segs))
-            cmds.append(dict(op='dispatch', path=p, verb=rng.choice(['GET', 'GET', 'GET', 'POST', 'HEAD', 'PUT'])))
-        yield dict(cmds=cmds)
+            if rng.random() < 0.12:
+                cmds.append(dict(op='resolve_route', path=p))        # resolve(path) without methods -> the Route
+            else:
+                cmds.append(dict(op='dispatch', path=p,
+                                 verb=rng.choice(['GET', 'GET', 'GET', 'POST', 'HEAD', 'PUT'])))
+        case = dict(cmds=cmds)
+        if rng.random() < 0.1:
+            # a second application operated in between (shared class-level filter cache and parser object)
+            other = [L.gen_rule(rng) for _k in range(3)]
+            case['twin'] = ([dict(op='add', rule=r2, methods=['GET'], h=90 + k) for k, (r2, _s) in enumerate(other)]
+                            + [dict(op='dispatch', path=L.instantiate(rng, s2), verb='GET') for _r, s2 in other])
+        yield case
     for _ in range(n_mal):
         # malformed stream: rule-like text; only parseable ones are kept as cases, the
         # oracle checks the others raise RouteSyntaxError (see malformed_ok)
@@ -208,6 +218,10 @@ def run_impl(case):
     return L.run_script(_sanitize(case))
 
 
+def project(obs, case):
+    return L.strip(obs)
+
+
 def encode(case):
     return L.encode(_sanitize(case))
 
@@ -217,6 +231,10 @@ def decode(out, case):
 
 
 def oracle(case, obs):
+    return L.traced(_oracle, case, obs)
+
+
+def _oracle(case, obs):
     """plain rule-by-rule matcher with the real filters, against what the application did"""
     from ombott.router.radirouter import Route
     from ombott.router.errors import RouteSyntaxError
@@ -261,7 +279,7 @@ def oracle(case, obs):
                 ent = table[pattern] = dict(flat=fl, filters=filters, methods={}, rule=c['rule'], pattern=pattern)
             for m in ms:
                 ent['methods'][m] = (c['h'], params)
-        elif c['op'] == 'dispatch':
+        elif c['op'] in ('dispatch', 'resolve_route'):
             sp = c['path'].strip('/')
             hits = []
             for p, e in table.items():
@@ -271,7 +289,13 @@ def oracle(case, obs):
             best = [(e, v) for e, v in hits if all(e2 is e or L.better(e['flat'], e2['flat']) for e2, _v in hits)]
             if hits and len(best) != 1:
                 return 'spec: %d best rules among %d matching for %r' % (len(best), len(hits), c['path'])
-            verb = c['verb'].upper()
+            if c['op'] == 'resolve_route':
+                want = None if not hits else [L.cps(best[0][0]['pattern']), sorted(best[0][0]['methods'])]
+                got = None if o is None else [o['pattern'], sorted(''.join(map(chr, m[0])) for m in o['methods'])]
+                if want != got:
+                    return 'resolve(%r) without methods returns %s, the rule-by-rule matcher selects %s' % (c['path'], got, want)
+                continue
+            verb = (c['verb'] if c['verb'] is not None else 'GET').upper()
             cands = [verb, 'GET', 'ANY'] if verb == 'HEAD' else [verb, 'ANY']
             for view in ('direct', 'wsgi'):
                 got = o[view]
